@@ -56,7 +56,18 @@ def run_doc(case: dict) -> core.CaseResult:
             ok = desc == (verdict,)
         res.outcomes['rule:' + verdict[0]] += 1
         if not ok:
-            key = f'C14/attribution-differs-from-documented-rules[expected {verdict[0]}, got {desc[0][0] if desc else "unowned"}]'
+            feature = ''
+            if verdict[0] == 'trailing' and verdict[1] == 'MetaItem' and desc == (('item',),):
+                # structural discriminator of known finding F12
+                for _, mm in tree.walk(raw):
+                    if isinstance(mm, M.Transaction) and not any(isinstance(x, M.Posting) for x in mm.raw_postings_with_comments) \
+                            and len(mm.raw_meta) and mm.raw_meta[-1].first_token is not None:
+                        st, en, _ = claims.offsets(raw.token_store)
+                        sp = claims.core_span(mm.raw_meta[-1], st, en)
+                        if sp and sp[0] == verdict[2]:
+                            feature = ',last-meta-item-of-transaction-without-postings'
+            key = (f'C14/attribution-differs-from-documented-rules[expected-{verdict[0]}{"-of-" + verdict[1] if len(verdict) > 1 else ""},'
+                   f'got-{desc[0][0] if desc else "unowned"}{feature}]')
             res.fail(key, where + f'comment at offset {off} {text[off:off + 12]!r}: documented rules give {verdict}, implementation {desc}')
             return res
     # parse-time == later
